@@ -41,6 +41,8 @@ ITEMS = [
  # numerals as strings (type conversion): plain, signed / leading zero, beside a non-numeral, under a wildcard modifier
  ("n1", [], "42"), ("n2", [], ["7", "-3", "08"]), ("n3", [], ["5", "x*"]), ("n4", ["contains"], "12"),
  # negated keywords (the empty field with neq): one value, several, with a further modifier
+ # a single-character wildcard at the edge is no reason to leave out the modifier's own wildcard
+ ("q1", ["contains"], "?a?"), ("q2", ["startswith"], "a?"), ("q3", ["endswith"], ["?a", "b"]),
  ("", ["neq"], "nkw"), ("", ["neq"], ["nk1", "nk2"]), ("", ["contains", "neq"], "nkc"),
 ]
 KW = [["foo", "ba*r"], [1], ["single"], ["k1", 2]]
